@@ -1,4 +1,7 @@
+#[cfg(not(prqlc_verif))]
 use std::collections::HashMap;
+#[cfg(prqlc_verif)]
+use crate::verif_hash::HashMap;
 
 use chumsky;
 use chumsky::input::BorrowInput;
